@@ -28,7 +28,7 @@ ASSUMPTIONS = ["bumps is replaced by a minimal stub of bumps.parameter (Paramete
 REQUIRED_MONITORS = ["interfaces_agree", "selection_matches_reference_index", "unknown_name_refused"]
 REQUIRED_BUCKETS = {"quick": ["iface:kernel", "iface:DirectModel", "iface:keyword", "iface:sasview", "iface:bumps",
                               "dim:1d", "dim:2d", "multiplicity", "product", "array_distribution", "select:mask",
-                              "select:qlimits", "select:nan", "refuse:misspelt", "refuse:foreign", "refuse:pd_suffix"]}
+                              "select:qlimits", "select:nan", "refuse:misspelt", "refuse:foreign", "refuse:pd_suffix", "refuse:bad_attribute"]}
 REQUIRED_BUCKETS["thorough"] = REQUIRED_BUCKETS["quick"]
 
 STUBS = os.path.join(core.VERIF, "rtm", "stubs")
@@ -265,7 +265,10 @@ def run_refuse(case, rec):
     name = models[int(rng.integers(len(models)))]
     i = sas.info(name)
     names = [p.name for p in i.parameters.call_parameters]
-    kind = ["misspelt", "foreign", "pd_suffix"][k % 3]
+    kind = ["misspelt", "foreign", "pd_suffix", "bad_attribute"][k % 4]
+    disp = [p.name for p in i.parameters.call_parameters if p.polydisperse]
+    if kind == "bad_attribute" and not disp:
+        kind = "misspelt"
     if kind == "misspelt":
         base = names[int(rng.integers(len(names)))]
         bad = base + "x" if rng.random() < 0.5 else base[:-1] if len(base) > 2 else base + "_"
@@ -278,6 +281,13 @@ def run_refuse(case, rec):
         if not cand:
             cand = ["no_such_parameter"]
         bad, value = cand[int(rng.integers(len(cand)))], 1.0
+    elif kind == "bad_attribute":
+        # a dispersible parameter with a distribution attribute that does not exist
+        base = disp[int(rng.integers(len(disp)))]
+        j = int(rng.integers(5))
+        bad = base + ["_pd_widht", "_pd_sigma", "_pd_npts", "_pdn", "_pd_"][j]
+        dotted_attr = base + [".widht", ".sigma", ".npt", ".n", "."][j]
+        value = 0.1
     else:
         nondisp = [p.name for p in i.parameters.call_parameters if not p.polydisperse]
         base = nondisp[int(rng.integers(len(nondisp)))]
@@ -292,7 +302,7 @@ def run_refuse(case, rec):
         "keyword": lambda: direct_model.Iq(name, q[0], **{bad: value}),
         "bumps": lambda: bumps_model.Model(model, **{bad: value}),
     }
-    dotted = bad
+    dotted = dotted_attr if kind == "bad_attribute" else bad
     for a, b in (("_pd_nsigma", ".nsigmas"), ("_pd_n", ".npts"), ("_pd", ".width")):
         if kind == "pd_suffix" and bad.endswith(a):
             dotted = bad[:-len(a)] + b
